@@ -459,7 +459,8 @@ def norm_xy(
     _mean = pts.mean(axis=0)
     XX = np.subtract(pts, _mean, out=out)
 
-    sx = (((XX**2).sum(axis=1) * 0.5) ** -0.5).mean()
+    # mean distance from 0 becomes sqrt(2); a point at the centroid (distance 0) is fine
+    sx = 1.0 / (((XX**2).sum(axis=1) * 0.5) ** 0.5).mean()
     XX *= sx
 
     tx, ty = -_mean * sx
